@@ -767,4 +767,8 @@ var (
 	ErrJSONSchemaDependentSchemas   = jsonschema.ErrJSONSchemaDependentSchemas
 	ErrJSONSchemaPropertyNames      = jsonschema.ErrJSONSchemaPropertyNames
 	ErrJSONSchemaContains           = jsonschema.ErrJSONSchemaContains
+	ErrJSONSchemaNot                = jsonschema.ErrJSONSchemaNot
+	ErrJSONSchemaDependentRequired  = jsonschema.ErrJSONSchemaDependentRequired
+	ErrJSONSchemaUniqueItems        = jsonschema.ErrJSONSchemaUniqueItems
+	ErrJSONSchemaPropertyCount      = jsonschema.ErrJSONSchemaPropertyCount
 )
